@@ -132,10 +132,6 @@ def run (beh : Id → Rect → List DrawOp) : St → List Op → Res St
     let st ← runOp beh st op
     run beh st ops
 
-theorem rootOk_congr {t1 t2 : Tree} (h : t2.wins = t1.wins) (hr : RootOk t1) : RootOk t2 := by
-  obtain ⟨w, hw⟩ := hr.ex
-  exact ⟨⟨w, by rw [h]; exact hw⟩⟩
-
 /-- **`inv_step` for `expose`**: exposing any rectangle of any window keeps the state in order. -/
 theorem inv_step_expose (content : Id → Int → Int → Cell) (st : St) (id : Id) (e : Option Rect) (t' : Tree)
     (h : WinTree.expose st.tree st.fuel id e = .ok t') (hg : Good content st) :
@@ -305,6 +301,19 @@ theorem inv_of_full_damage (content : Id → Int → Int → Cell) (t : Tree) (s
   cases hm : (⟨0, 0, root.rect.lines, root.rect.cols⟩ : Rect).memb L C with
   | false => rw [hm] at ho; simp at ho
   | true => exact ⟨_, hfull, (memb_true_iff _ _ _).1 hm⟩
+
+/-- **Full redraw**: whatever the tree (any shape, geometry, z-order, visibility) and whatever the terminal showed, once
+    the whole root window is damaged a flush leaves the painter's-model composition in every owned cell. -/
+theorem flush_after_full_expose (beh : Id → Rect → List DrawOp) (content : Id → Int → Int → Cell)
+    (st st' : St) (t : Tree) (shots : List Shot) (root : Win)
+    (h : flushRender beh st t = .ok (st', shots)) (hroot : RootOk t) (hflag : Flagged t) (hrep : Repaints content beh)
+    (hr : t.wins[0]? = some root) (hfull : (⟨0, 0, root.rect.lines, root.rect.cols⟩ : Rect) ∈ t.root.damage) :
+    Exact content st'.tree st'.screen := by
+  obtain ⟨root0, hr0, hf0, hv0, htop0, hleft0⟩ := hroot.ex
+  have : root0 = root := by rw [hr] at hr0; exact (Option.some.inj hr0).symm
+  subst this
+  exact (flush_exact beh content st st' t shots h hroot hflag hrep
+    (inv_of_full_damage content t st.screen root0 hr hf0 hv0 htop0 hleft0 hfull)).2.2
 
 /-- A freshly created terminal of positive size is in order (the hypothesis of `C01_partial` is inhabited). -/
 theorem good_init (content : Id → Int → Int → Cell) (lines cols : Int) (pen : Option Pen) (hl : 0 < lines) (hc : 0 < cols) :
